@@ -206,7 +206,7 @@ impl Set {
         Set { cases, docs }
     }
 
-    fn run_str(&self, q: &str, idx: usize, all_docs: bool, acc: &mut Acc, out: &mut Vec<(String, Value)>) {
+    fn run_str(&self, q: &str, idx: usize, all_docs: bool, light: bool, acc: &mut Acc, out: &mut Vec<(String, Value)>) {
         let describe = |what: &str| json!({"kind":"crash","query": q, "entry_point": what});
         let parsed = match libapi::parse(q) {
             Ok(Ok(p)) => Some(p),
@@ -226,13 +226,21 @@ impl Set {
             }
         }
         // two documents per string (all of them over time), every entry point
-        let n_docs = if all_docs { self.docs.len() } else { 2 };
+        let n_docs = if all_docs { self.docs.len() } else if light { 1 } else { 2 };
         for k in 0..n_docs {
             let d = &self.docs[(idx * 2 + k) % self.docs.len()];
             match libapi::query_with_path(q, d) {
                 LibOutcome::Panic(p) => out.push((format!("query_with_path panicked on {:?}: {}", short(q), p), describe("query_with_path"))),
                 LibOutcome::Err(e) if parsed.is_some() => out.push((format!("a query that parse_json_path accepts fails in query_with_path: {:?}: {}", short(q), e), describe("query_with_path"))),
                 _ => {}
+            }
+            if light {
+                if let Some(jq) = &parsed {
+                    if let LibOutcome::Err(e) = libapi::process(jq, d) {
+                        out.push((format!("evaluating the successfully parsed query {:?} failed: {}", short(q), e), describe("js_path_process")));
+                    }
+                }
+                continue;
             }
             if let Err(p) = libapi::query_vals(q, d) {
                 out.push((format!("query panicked on {:?}: {}", short(q), p), describe("query")));
@@ -304,7 +312,7 @@ impl CaseSet for Set {
             match &self.cases[idx] {
                 Case::Str(q, fam) => {
                     acc_l.count(&format!("family_{}", fam), 1);
-                    self.run_str(q, idx, matches!(*fam, "regex-stress" | "integer-extremes" | "curated" | "near-miss"), &mut acc_l, &mut out_l);
+                    self.run_str(q, idx, matches!(*fam, "regex-stress" | "integer-extremes" | "curated" | "near-miss"), false, &mut acc_l, &mut out_l);
                 }
                 Case::Prog(q, fam) => {
                     acc_l.count(&format!("family_{}", fam), 1);
@@ -321,7 +329,7 @@ impl CaseSet for Set {
                     acc_l.count("ladder_cases", 1);
                     acc_l.nontrivial(format!("{}:{}", kind, rung).as_bytes());
                     if let Some(q) = ladder_query(kind, *rung) {
-                        self.run_str(&q, idx, false, &mut acc_l, &mut out_l);
+                        self.run_str(&q, idx, false, true, &mut acc_l, &mut out_l);
                     } else {
                         let queries = ["$..*", "$..a", "$..[0]", "$[?@..a]", "$[*]", "$[::-1]", "$[?@ > 1]", "$[?count(@..*) > 1]", "$..[?@.a]"];
                         let doc: Option<Value> = match *kind {
@@ -496,6 +504,13 @@ fn run_isolated_c08(ctx: &Ctx, set: &Set, part: &Part, iso: &Isolation, profile:
         };
         if let Case::Ladder(kind, rung) = &set.cases[idx] {
             log.lock().unwrap().failed.entry((profile.to_string(), kind.to_string())).or_default().push((*rung, how.clone()));
+            if *rung > required_rung(kind) && matches!(death, Death::CpuTimeout(_)) && armed.param(&format!("ladder:{}", kind)).is_none() {
+                // beyond the required bound a CPU-budget overrun is an exploration result (run
+                // time near the budget is not reproducible enough for a verdict): it is recorded
+                // in the ladder table of the evidence, not reported
+                ctx.add_skipped("ladder-cpu-overrun-beyond-required-rung", 1);
+                return;
+            }
             if *rung > required_rung(kind) {
                 // beyond the required bound: exploration, compared with the recorded finding
                 let trig = format!("ladder:{}", kind);
